@@ -226,6 +226,39 @@ theorem multi_crash_handlers_not_misled (ops : List Op) (cs : List (Nat × Nat))
     unfold dormant at hlive
     rw [hlive] at this; cases this
 
+/-! ### Storage failures (`Update` returns an error) -/
+
+/-- **Failed persists do not count and leave no trace on disk**: with the transaction of any operations failing,
+the disk tracks exactly the operations that were not reported as failed. -/
+theorem failed_persist_not_recorded (fops : List FOp) (hf : ∀ f ∈ fops, f.2 ≤ 1) (T id : String) :
+    (frun {} fops).disk.level T id = lastLevel (effective fops) T id :=
+  (frun_disk_level {} rfl fops hf T id).1
+
+/-- **A failed persist IS reported to the caller, but only after memory and handlers ran ahead of the disk**: after
+`Collect` whose transaction fails the caller gets the error, the disk is untouched, the topic's memory shows the
+new level and the handlers have been told — exactly the state of a crash in the notify→transaction window,
+without a crash. -/
+theorem failed_persist_memory_ahead_of_disk (s : Svc) (T id : String) (l : Nat) (t : Int) :
+    FOp.reportsError (.collect T id l t, 1) = true ∧
+    fstep s (.collect T id l t, 1) = runMicros s ((Op.collect T id l t).micros.take 3) ∧
+    (fstep s (.collect T id l t, 1)).disk = s.disk ∧
+    (fstep s (.collect T id l t, 1)).mem.level T id = l ∧
+    (fstep s (.collect T id l t, 1)).told = s.told ++ [{ topic := T, id := id, level := l, time := t }] := by
+  refine ⟨?_, ?_, (fstep_failed s _).1, ?_, (fstep_failed s _).2.2.1⟩
+  · by_cases hl : l = 0 <;> simp [FOp.reportsError, Op.micros, collectMicros, Micro.isTx, List.filter, hl]
+  · by_cases hl : l = 0 <;>
+      simp [fstep, FOp.micros, failTx, failTx.go, Op.micros, collectMicros, Micro.isTx, runMicros, exec, hl]
+  · by_cases hl : l = 0 <;> by_cases hc : s.closed T = true <;>
+      simp [fstep, FOp.micros, failTx, failTx.go, Op.micros, collectMicros, Micro.isTx, runMicros, exec,
+        Store.level, Store.put, hl, hc]
+
+/-- … so a restart at an OPERATION BOUNDARY after a failed persist misleads the handlers just like the window
+(same finding `notify-before-persist`; replayed by corpus/C08/witness-failed-persist.ops). -/
+theorem failed_persist_then_restart_misleads :
+    let s := (frun {} [(Op.collect "t" "a" 3 1, 1)]).restart
+    lastTold s.told "t" "a" = 3 ∧ s.mem.level "t" "a" = 0 := by
+  decide
+
 /-- **Counterexample (finding `notify-before-persist`)**: one CRITICAL event, process death after the handlers
 were told and before the transaction: the id resumes as OK and ends OK, the handlers' last word is CRITICAL.
 Replayed on the real code by corpus/C08/finding-notify-before-persist.ops. -/
